@@ -17,7 +17,7 @@ ENGINES = [
      "real OS threads on database clones with seeded delay injection (yield / spin / sleep profiles) at feature-guarded failpoints "
      "between salsa's critical sections; watchdog + protocol-trace analysis for stuck states; ThreadSanitizer build in the thorough tier"},
     {"name": "E-single", "path": "/verif/harness (svh run, native cfg)", "serves_properties":
-     ["C01", "C02", "C03", "C04", "C05", "C06", "C07", "C09", "C10", "C11", "C12", "C13", "C14", "C15"], "kind_free_text":
+     ["C01", "C02", "C03", "C04", "C05", "C06", "C07", "C08", "C09", "C10", "C11", "C12", "C13", "C14", "C15"], "kind_free_text":
      "single handle, single thread: seeded program+history generator, reference interpreter as value oracle, event-log monitors"},
 ]
 NOTES = ("Runtime monitoring only: every verdict comes from an oracle over executions of the real salsa code. "
@@ -109,8 +109,11 @@ META.update({
     "C08": E("bijection monitor over interning observations (value<->handle per revision) under schedule fuzzing",
              CVOL + "Threads intern values from a tiny domain at top level and inside queries into constant-hash and real-hash types while "
              "others read handles; per revision two equal values must yield one handle, unequal values different handles, field reads the "
-             "interned value, under shuttle schedules and on OS threads with a delay failpoint before the shard lock.",
-             CONC_NOTE, "E-sched + E-os"),
+             "interned value, under shuttle schedules and on OS threads with a delay failpoint before the shard lock. A single-handle run adds "
+             "histories of revisions under LOW..HIGH durabilities with slot reclamation: same bijection per revision, identity kept while "
+             "the slot was not reclaimed, and every handle held by a memo that the current request validated (transitively) is read back "
+             "through its id and must still denote the value it was interned for.",
+             CONC_NOTE, "E-sched + E-os + E-single"),
     "C16": E("per-thread differential value oracle + deadlock detection (shuttle: all threads blocked; OS: protocol-level stuck state)",
              CVOL + "2-4 threads with database clones request overlapping sets of functions of acyclic programs after a prior revision, so "
              "verification, execution, blocking and retry paths run concurrently; every result must equal the reference, no schedule may "
